@@ -4,7 +4,7 @@ From Coq Require Extraction ExtrOcamlBasic.
 From Coq Require Import ZArith List.
 From VBase Require Import FieldOps ZpOps.
 From VGen Require Import FftIndex.
-From VModel Require Import FFT.
+From VModel Require Import FFT FFTSplit.
 Extraction Language OCaml.
 
 (* B::get_root_of_unity(k) = TWO_ADIC_ROOT_OF_UNITY ^ (2^(TWO_ADICITY - k)) *)
@@ -24,4 +24,6 @@ Separate Extraction
   (* checked variant (explicit panics) and the rs2v-generated permute_index *)
   fft_in_place_c permute_c get_twiddles_c get_inv_twiddles_c evaluate_poly_c evaluate_poly_with_offset_c
   interpolate_poly_c interpolate_poly_with_offset_c infer_degree_c
-  fftidx_permute_index fftidx_permute_index_ok.
+  fftidx_permute_index fftidx_permute_index_ok
+  (* the four-step FFT of the concurrent build *)
+  split_radix_fft split_radix_fft_spec_tr evaluate_poly_concurrent interpolate_poly_concurrent.
